@@ -5,6 +5,9 @@ NS = "Hw.Props.C08."
 THEOREMS = [NS + t for t in """C08_consts C08_einval_unchanged C08_einval_cases C08_plan C08_sets_root C08_minus_compl_is_inter
 C08_sets_object C08_sets_exact C08_survivors C08_survivors_sets C08_removal_rule C08_pu_rule C08_numa_rule C08_root_kept C08_wf_sets C08_specials C08_specials_local C08_merge_decision C08_merge_exact C08_merge_preserves_setsok C08_wf_sets_whole C08_sets_exact_whole C08_render_links C08_render_no_children C08_render_levels C08_typing_preserved C08_restrict_links C08_restrict_no_children C08_restrict_levels C08_repeat C08_repeat_exact
 C08_reorder_without_removal_reachable
+C08_restrict_preserves_typing C08_repeat_preserves_typing C08_wf_implies_okT C08_wf_mergeSafe C08_wf_restrict_typing
+C08_pus_exact C08_merge_keeps_nonnormal C08_numa_survive C08_numas_exact_bynodeset C08_pu_survive_bynodeset
+C08_merge_keeps_pus C08_pus_exact_whole C08_pu_survive_bynodeset_whole C08_restrict_leaf_root C08_repeat_leaf_root C08_render_top C08_render_children_counts C08_render_levels_cover C08_render_type_depth_inverse C08_render_sets C08_setsPres C08_restrict_wf_partial C08_restrict_numa_exists C08_restrict_from_wf_partial
 C08_side_distances C08_side_distances_types_aligned C08_side_distances_repeat C08_side_cpukinds C08_side_memattrs""".split()]
 CHECK_MODULES = ["Hw.Props.C08"]
 TRUSTED = ["hwloc_bitmap_not / andnot / intersects / isincluded / iszero / set / compare_first enter the model through their "
@@ -17,10 +20,14 @@ TRUSTED = ["hwloc_bitmap_not / andnot / intersects / isincluded / iszero / set /
            "parser/renderer lean/Driver/RestrictSide.lean; the state the prediction starts from is ADOPTED from the observation made "
            "before the first restrict (plus the forced efficiencies of the CPU kinds, read from the private struct because no public "
            "call returns them); the models that carry it are the ones of C13/C14/C15 (Hw.Dist, Hw.MemAttrs, Hw.CpuKinds)"]
-ASSUMPTIONS = ["exactness theorems (C08_sets_root, C08_sets_exact, C08_sets_exact_whole, C08_repeat_exact) assume SetsOK (okT: set "
-               "inside complete set, complete sets of normal/memory children inside the parent's, no sets on I/O and Misc objects: C01 "
-               "clauses) on the initial topology only (it is proved to be preserved by every call); the driver evaluates okT on every "
-               "well-formed BEFORE dump",
+ASSUMPTIONS = ["the hypotheses of the exactness / link / level / survivor theorems (SetsOK okT, typing typedT, Machine root, PUs are "
+               "leaves, PU / NUMA singletons) are PROVED for the tree of every well-formed dump (C08_wf_implies_okT, fold invariant of "
+               "treeOf) and proved to be preserved by every call (C08_restrict_preserves_typing, C08_restrict_leaf_root); the driver "
+               "still evaluates them on every WF BEFORE dump",
+               "mergeSafe (hypothesis of the level-merging theorems about PUs and the root): gp_index distinct over the tree (PROVED from WF: "
+               "the rebuilt tree lists every dump object exactly once, C08_wf_mergeSafe) and no KEEP_STRUCTURE filter on the PU type and "
+               "the root's type (an API fact: hwloc_topology_set_type_filter refuses it; evaluated by the driver on every BEFORE dump); "
+               "proved to be preserved by every call",
                "malloc never fails (the ENOMEM / re-init path of hwloc_topology_restrict is not modelled)"]
 MODELLED = ("modelled: hwloc_topology_restrict flag validation, pre-checks, dropped sets incl. CPU-less/memory-less detection, "
             "restrict_object_by_cpuset/_by_nodeset, unlink_and_free_single_object (childless case), hwloc__reorder_children, "
